@@ -672,6 +672,9 @@ func runH2Write(r *hk.Run, rng *hk.Rand) {
 				}, m)
 		case 3:
 			sid, dep, excl, wt := pickSID(), pickSID(), rng.Bool(), uint8(rng.U64())
+			if rng.Chance(50) { // boundary weights (0 with the exclusive bit, 255)
+				wt = uint8(hk.Pick(rng, []int{0, 0, 1, 255}))
+			}
 			h2WriteCase(r, "WritePriority", fmt.Sprintf("WPriority %s %d %s", A, sid, coqPrio(dep, excl, wt)),
 				map[string]interface{}{"aiw": aiw, "sid": sid, "dep": dep, "excl": excl, "weight": wt},
 				func(w io.Writer) error {
@@ -757,6 +760,43 @@ func runH2Write(r *hk.Run, rng *hk.Rand) {
 				map[string]interface{}{"type": ty, "flags": flags, "sid": sid, "payload": fmt.Sprintf("%x", p)},
 				func(w io.Writer) error { f, _ := mk(w); return f.WriteRawFrame(fh2.FrameType(ty), fh2.Flags(flags), sid, p) },
 				func(w io.Writer) error { _, x := mk(w); return x.WriteRawFrame(xh2.FrameType(ty), xh2.Flags(flags), sid, p) }, m)
+		}
+	}
+	// every combination of boundary priority parameters, through WritePriority and WriteHeaders
+	for _, dep := range []uint32{0, 1, 3, 0x7fffffff, 0x80000000} {
+		for _, excl := range []bool{false, true} {
+			for _, wt := range []uint8{0, 1, 15, 254, 255} {
+				for _, aiw := range []bool{false, true} {
+					dep, excl, wt, aiw := dep, excl, wt, aiw
+					A := hk.CoqBool(aiw)
+					h2WriteCase(r, "WritePriority", fmt.Sprintf("WPriority %s %d %s", A, 5, coqPrio(dep, excl, wt)),
+						map[string]interface{}{"aiw": aiw, "sid": 5, "dep": dep, "excl": excl, "weight": wt, "grid": true},
+						func(w io.Writer) error {
+							f := fh2.NewFramer(w, nil)
+							f.AllowIllegalWrites = aiw
+							return f.WritePriority(5, pubh2.PriorityParam{StreamDep: dep, Exclusive: excl, Weight: wt})
+						},
+						func(w io.Writer) error {
+							x := xh2.NewFramer(w, nil)
+							x.AllowIllegalWrites = aiw
+							return x.WritePriority(5, xh2.PriorityParam{StreamDep: dep, Exclusive: excl, Weight: wt})
+						}, true)
+					h2WriteCase(r, "WriteHeaders", fmt.Sprintf("WHeaders %s %d %s %s %s %d %s", A, 5, hk.CoqBytes([]byte{0x82}), "false", "true", 0, coqPrio(dep, excl, wt)),
+						map[string]interface{}{"aiw": aiw, "sid": 5, "dep": dep, "excl": excl, "weight": wt, "grid": true},
+						func(w io.Writer) error {
+							f := fh2.NewFramer(w, nil)
+							f.AllowIllegalWrites = aiw
+							return f.WriteHeaders(fh2.HeadersFrameParam{StreamID: 5, BlockFragment: []byte{0x82}, EndHeaders: true,
+								Priority: pubh2.PriorityParam{StreamDep: dep, Exclusive: excl, Weight: wt}})
+						},
+						func(w io.Writer) error {
+							x := xh2.NewFramer(w, nil)
+							x.AllowIllegalWrites = aiw
+							return x.WriteHeaders(xh2.HeadersFrameParam{StreamID: 5, BlockFragment: []byte{0x82}, EndHeaders: true,
+								Priority: xh2.PriorityParam{StreamDep: dep, Exclusive: excl, Weight: wt}})
+						}, true)
+				}
+			}
 		}
 	}
 	// frame-too-large boundary (Go-only: a 16 MiB literal is not sent to Coq)
